@@ -9,6 +9,7 @@ import Cellml.Engine.Clone
 import Cellml.Engine.Heap
 import Cellml.Engine.Expr
 import Cellml.Engine.Struct
+import Cellml.Engine.Analyse
 open Cellml
 
 /-- line-protocol loop: one answer per input line -/
@@ -39,6 +40,7 @@ def main (args : List String) : IO UInt32 := do
   match args with
   | ["numpos"] => loop stdin stdout Engine.Num.posAnswer; return 0
   | ["num"] => loop stdin stdout numLine; return 0
+  | ["analyse"] => loop stdin stdout Engine.Analyse.answer; return 0
   | ["struct"] => loop stdin stdout Engine.Struct.answer; return 0
   | ["expr"] => loop stdin stdout Engine.Expr.answer; return 0
   | ["heap"] => loop stdin stdout Engine.Heap.answer; return 0
